@@ -9,6 +9,7 @@ import traceback
 from . import extract as X
 from . import run as R
 from . import verus as V
+from . import kani as K
 
 VERIF = R.VERIF
 
@@ -137,6 +138,10 @@ def run_property(prop, pc, kf, tier, seed, sc, t0):
                 violations.append(f)
     if prop == 'C11':
         tool_problems += c11_shared_contracts(results)
+    kani_results = []
+    if not tool_problems and (tier == 'thorough' or violations):
+        # thorough: every harness of the property; quick: only as triage of a Verus failure (fast harnesses)
+        kani_results = K.run_for_property(prop, sc.dir, include_slow=(tier == 'thorough'))
     if tool_problems:
         for t in tool_problems:
             print('TOOL-LIMIT property=%s %s' % (prop, t))
@@ -158,13 +163,32 @@ def run_property(prop, pc, kf, tier, seed, sc, t0):
                        'note': 'Verus gives no counterexample; obligation passed on the unchanged tree and fails now'}, fh, indent=1)
         print('VIOLATION property=%s replay=%s obligation=%s::%s kind="%s" no-failing-input-found' % (prop, path, f['unit'], f['function'], f['kind']))
         rc = 1
+    kani_viol = 0
+    for kr in kani_results:
+        if kr['status'] == 'ok' and kr['kind'] == 'complete':
+            obligations.append({'id': 'kani::%s' % kr['name'], 'function': kr['name'], 'unit': 'kani', 'what': kr['what'], 'backend': 'kani/cbmc',
+                                'kind': 'complete-loop-free', 'time_ms': (kr.get('cbmc_s') or 0) * 1000, 'rlimit': None, 'discharged': True})
+        if kr['status'] == 'failed':
+            path = os.path.join(VERIF, 'replays', '%s_kani_%s.json' % (prop, kr['name']))
+            with open(path, 'w') as fh:
+                json.dump({'property': prop, 'obligation': 'kani::' + kr['name'], 'what': kr['what'], 'kind': kr['kind'], 'failed_checks': kr['failed_checks'],
+                           'failing_input_bytes_per_kani_any': kr.get('concrete_vals'), 'native_replay': kr.get('native'), 'cmd': kr['cmd'], 'verifier_output': kr['output_tail']}, fh, indent=1)
+            kf_e = known(kf, prop, {'function': kr['name'], 'clause': kr['failed_checks'], 'site': ''})
+            if kf_e:
+                print('KNOWN-FINDING: property=%s %s :: %s (%s)' % (prop, kr['name'], kf_e.get('what', ''), kf_e.get('id', '')))
+            else:
+                print('VIOLATION property=%s replay=%s obligation=kani::%s failed="%s" counterexample-replayed-natively' % (prop, path, kr['name'], kr['failed_checks'][:120]))
+                rc = 1
+                kani_viol += 1
+        if kr['status'] in ('timeout', 'error'):
+            print('NOTE property=%s kani harness %s: %s (no verdict from this harness)' % (prop, kr['name'], kr['status']))
     n_ob = len(obligations)
     bad_fns = {f['function'] for f in violations} | {f['function'] for _, f in known_hits}
     for o in obligations:
         if o['function'] in bad_fns:
             o['discharged'] = False
     n_dis = sum(1 for o in obligations if o['discharged'])
-    write_evidence(prop, pc, tier, seed, results, obligations, n_dis, functions_under_contract, smt_ms, vac, violations, known_hits, time.time() - t0)
+    write_evidence(prop, pc, tier, seed, results, obligations, n_dis, functions_under_contract, smt_ms, vac, violations, known_hits, time.time() - t0, kani_results, kani_viol)
     print('property=%s tier=%s obligations=%d discharged=%d known-findings=%d violations=%d wall=%.1fs' % (
         prop, tier, n_ob, n_dis, len(known_hits), len(violations), time.time() - t0))
     return rc
@@ -207,7 +231,7 @@ def scan_assumptions():
     return out
 
 
-def write_evidence(prop, pc, tier, seed, results, obligations, n_dis, fuc, smt_ms, vac, violations, known_hits, wall):
+def write_evidence(prop, pc, tier, seed, results, obligations, n_dis, fuc, smt_ms, vac, violations, known_hits, wall, kani_results=(), kani_viol=0):
     cmds = [bv['verus']['cmd'] for bv in results]
     samples = []
     for bv in results:
@@ -229,7 +253,9 @@ def write_evidence(prop, pc, tier, seed, results, obligations, n_dis, fuc, smt_m
             'trusted_base': pc.get('trusted_base', []) + ['mechanical scan of units/: ' + x for x in scan_assumptions()],
             'functions_under_contract': fuc,
             'obligation_list': obligations,
-            'bounded_checks': pc.get('bounded_checks', []),
+            'bounded_checks': [dict(harness=k['name'], bound=k['kind'], what=k['what'], status=k['status'], wall_s=k['wall_s'], backend='kani/cbmc', checks=k.get('checks')) for k in kani_results if k['kind'] != 'complete']
+                              or ('(Kani bounded stand-ins run in the thorough tier only: %s)' % ', '.join(sorted(n for n, i in K.harnesses().items() if prop in i['props'] and i['kind'] != 'complete')) if tier == 'quick' else []),
+            'kani_complete': [dict(harness=k['name'], what=k['what'], status=k['status'], wall_s=k['wall_s']) for k in kani_results if k['kind'] == 'complete'],
             'solver_time_ms': smt_ms,
             'vacuity': vac,
             'uncovered_clauses': pc.get('uncovered', []),
@@ -241,7 +267,7 @@ def write_evidence(prop, pc, tier, seed, results, obligations, n_dis, fuc, smt_m
         },
         'assumptions': pc.get('assumptions', []),
         'wall_s': round(wall, 2),
-        'violations': len(violations),
+        'violations': len(violations) + kani_viol,
     }
     os.makedirs(os.path.join(VERIF, 'evidence'), exist_ok=True)
     with open(os.path.join(VERIF, 'evidence', prop + '.json'), 'w') as fh:
